@@ -379,9 +379,13 @@ fn write_patterns(out: &mut String, spec: &[ModeSpec], rcache: &RefCache) -> boo
 fn equiv_case(idx: usize, spec: &[ModeSpec], cache: &TableCache, rcache: &RefCache, out: &mut String, st: &mut Stats) {
     let modes = cfggen::to_modes(spec);
     st.cases += 1;
+    scnr::verif::set_minimizer_log(true);
+    let _ = scnr::verif::take_minimizer_log();
     let built = catch_unwind(AssertUnwindSafe(|| {
         ScannerBuilder::new().add_scanner_modes(&modes).build_uncached()
     }));
+    let minlog = scnr::verif::take_minimizer_log();
+    scnr::verif::set_minimizer_log(false);
     let scanner = match built {
         Err(_) => {
             st.build_panic += 1;
@@ -421,6 +425,58 @@ fn equiv_case(idx: usize, spec: &[ModeSpec], cache: &TableCache, rcache: &RefCac
             st.count("automata_checked", 1);
             st.count("dfa_states", la.states.len());
         }
+    }
+    // track A: the Lean model of the compiler (Thompson construction, closure construction,
+    // minimizer) against the automata of this build: before minimization (logged minimizer inputs,
+    // in the order the compiler minimizes: every mode followed by its lookaheads) and final
+    let mut reg = astser::RegKeys::default();
+    let mut clines = String::new();
+    let mut ok = true;
+    for (m, mode) in spec.iter().enumerate() {
+        for p in &mode.patterns {
+            match astser::ser_cpattern(&p.pattern, &mut reg) {
+                Some(a) => {
+                    let _ = writeln!(clines, "cpat {} {}{}", m, p.tid, a);
+                }
+                None => ok = false,
+            }
+        }
+        for p in &mode.patterns {
+            if let Some((_, la)) = &p.lookahead {
+                match astser::ser_cpattern(la, &mut reg) {
+                    Some(a) => {
+                        let _ = writeln!(clines, "clapat {} {}{}", m, p.tid, a);
+                    }
+                    None => ok = false,
+                }
+            }
+        }
+    }
+    if ok && reg.keys.len() == dump.classes.len() {
+        body.push_str(&clines);
+        let mut li = 0;
+        for (m, mode) in spec.iter().enumerate() {
+            if let Some((pre, _)) = minlog.get(li) {
+                body.push_str("dfa x 0\n");
+                write_dfa_lines(&mut body, pre);
+                let _ = writeln!(body, "compilecheck {}\nexpect compile done", m);
+                st.count("compiler_model_checks", 1);
+            }
+            li += 1;
+            for p in &mode.patterns {
+                if p.lookahead.is_some() {
+                    if let Some((pre, _)) = minlog.get(li) {
+                        body.push_str("dfa x 0\n");
+                        write_dfa_lines(&mut body, pre);
+                        let _ = writeln!(body, "compilecheckla {} {}\nexpect compile done", m, p.tid);
+                        st.count("compiler_model_checks", 1);
+                    }
+                    li += 1;
+                }
+            }
+        }
+    } else {
+        st.count("compiler_model_skipped", 1);
     }
     out.push_str(&body);
     if st.samples.len() < 3 {
